@@ -50,6 +50,7 @@ type EmuProbe struct {
 	B     int   `json:"b"`
 	Sel   int   `json:"sel"`
 	Ok    bool  `json:"ok"`
+	Un    bool  `json:"un"`
 	Temps []int `json:"temps"`
 }
 type EmuBeh struct {
@@ -62,6 +63,7 @@ type EmuBeh struct {
 type EmuCircuit[T emulated.FieldParams] struct {
 	A, B emulated.Element[T]
 	E    []emulated.Element[T]
+	N    []frontend.Variable // native expectations (low bits of the canonical representative for CanonBits)
 	Sel  frontend.Variable `gnark:",public"`
 	Prog []EmuInstr        `gnark:"-"`
 }
@@ -75,6 +77,7 @@ func (c *EmuCircuit[T]) Define(api frontend.API) error {
 	qm1 := new(big.Int).Sub(t.Modulus(), big.NewInt(1))
 	selBits := api.ToBinary(c.Sel, 2)
 	var temps []*emulated.Element[T]
+	modres := make([]*emulated.Element[T], len(c.Prog))
 	get := func(r EmuRef) *emulated.Element[T] {
 		switch r.K {
 		case "a":
@@ -92,7 +95,7 @@ func (c *EmuCircuit[T]) Define(api frontend.API) error {
 		}
 		panic("bad ref")
 	}
-	for _, ins := range c.Prog {
+	for k, ins := range c.Prog {
 		a := make([]*emulated.Element[T], len(ins.A))
 		for i := range ins.A {
 			a[i] = get(ins.A[i])
@@ -135,20 +138,66 @@ func (c *EmuCircuit[T]) Define(api frontend.API) error {
 			r = f.Sum(a[0], a[1], a[2])
 		case "IsZeroSel":
 			r = f.Select(f.IsZero(a[0]), a[1], f.Add(a[1], f.One()))
+		case "MulNR":
+			r = f.Reduce(f.MulNoReduce(a[0], a[1]))
+		case "SqrtSq":
+			t := f.Sqrt(a[0])
+			r = f.Mul(t, t)
+		case "Exp":
+			r = f.Exp(a[0], a[1])
+		case "CanonBits":
+			bits := f.ToBitsCanonical(a[0])
+			r = f.FromBits(bits...)
+			low := bits
+			if len(low) > 8 {
+				low = low[:8]
+			}
+			api.AssertIsEqual(api.FromBinary(low...), c.N[k])
+		case "Bits":
+			r = f.FromBits(f.ToBits(a[0])...)
+		case "AssertEq":
+			f.AssertIsEqual(a[0], a[1])
+			r = a[0]
+		case "AssertDiff":
+			f.AssertIsDifferent(a[0], a[1])
+			r = a[0]
+		case "LeqStrict":
+			x, y := f.ReduceStrict(a[0]), f.ReduceStrict(a[1])
+			f.AssertIsLessOrEqual(x, y)
+			r = a[0]
+		case "ReduceStrict":
+			r = f.ReduceStrict(a[0])
+		case "Eval2":
+			r = f.Eval([][]*emulated.Element[T]{{a[0], a[0]}, {a[0], a[1]}, {a[1]}}, []int{1, 2, 3})
+		case "ModMulB":
+			modres[k] = f.ModMul(a[0], a[1], &c.B)
+			r = a[0]
+		case "ModAddB":
+			modres[k] = f.ModAdd(a[0], a[1], &c.B)
+			r = a[0]
+		case "ModExpB":
+			modres[k] = f.ModExp(a[0], a[1], &c.B)
+			r = a[0]
 		default:
 			return fmt.Errorf("unknown emulated op %q", ins.Op)
 		}
 		temps = append(temps, r)
 	}
 	for k := range temps {
-		f.AssertIsEqual(temps[k], &c.E[k])
+		if modres[k] != nil {
+			f.ModAssertIsEqual(modres[k], &c.E[k], &c.B)
+		} else {
+			f.AssertIsEqual(temps[k], &c.E[k])
+		}
 	}
 	return nil
 }
 
-// emuOracle evaluates the program with math/big (port of EmulatedOps.tla Eval).
-func emuOracle(prog []EmuInstr, a, b *big.Int, sel int, q *big.Int) (bool, []*big.Int) {
-	var temps []*big.Int
+// emuOracle evaluates the program with math/big (port of EmulatedOps.tla Eval). a and b are the integer values of the
+// witness inputs (a may be non-canonical). Status: 0 satisfiable with expectations exp (and native expectations nat),
+// 1 unsatisfiable, 2 unspecified.
+func emuOracle(prog []EmuInstr, a, b *big.Int, sel int, q *big.Int) (int, []*big.Int, []*big.Int) {
+	var temps, exp, nat []*big.Int
 	one := big.NewInt(1)
 	get := func(r EmuRef) *big.Int {
 		switch r.K {
@@ -169,17 +218,20 @@ func emuOracle(prog []EmuInstr, a, b *big.Int, sel int, q *big.Int) (bool, []*bi
 	}
 	n := func() *big.Int { return new(big.Int) }
 	for _, ins := range prog {
+		raw := make([]*big.Int, len(ins.A))
 		x := make([]*big.Int, len(ins.A))
 		for i := range ins.A {
-			x[i] = get(ins.A[i])
+			raw[i] = get(ins.A[i])
+			x[i] = n().Mod(raw[i], q)
 		}
-		var r *big.Int
+		var r, e *big.Int // r: value of the temporary, e: expected E (defaults to r)
+		nv := n()
 		switch ins.Op {
 		case "Add":
 			r = n().Add(x[0], x[1])
 		case "Sub":
 			r = n().Sub(x[0], x[1])
-		case "Mul":
+		case "Mul", "MulNR":
 			r = n().Mul(x[0], x[1])
 		case "Sqr":
 			r = n().Mul(x[0], x[0])
@@ -188,18 +240,21 @@ func emuOracle(prog []EmuInstr, a, b *big.Int, sel int, q *big.Int) (bool, []*bi
 		case "Div":
 			if x[1].Sign() == 0 {
 				if x[0].Sign() == 0 {
-					return false, nil // 0/0: unspecified (any quotient satisfies q*0 == 0)
+					return 2, nil, nil
 				}
-				return false, temps
+				return 1, nil, nil
 			}
 			r = n().Mul(x[0], n().ModInverse(x[1], q))
 		case "Inverse":
 			if x[0].Sign() == 0 {
-				return false, temps
+				return 1, nil, nil
 			}
 			r = n().ModInverse(x[0], q)
-		case "Reduce":
+		case "Reduce", "ReduceStrict", "Bits":
 			r = n().Set(x[0])
+		case "CanonBits":
+			r = n().Set(x[0])
+			nv = n().And(x[0], big.NewInt(255))
 		case "MulConst3":
 			r = n().Mul(x[0], big.NewInt(3))
 		case "AddChain":
@@ -216,24 +271,79 @@ func emuOracle(prog []EmuInstr, a, b *big.Int, sel int, q *big.Int) (bool, []*bi
 			r = n().Set(x[sel%4])
 		case "Sum3":
 			r = n().Add(n().Add(x[0], x[1]), x[2])
+		case "Eval2":
+			r = n().Mul(x[0], x[0])
+			r.Add(r, n().Mul(big.NewInt(2), n().Mul(x[0], x[1])))
+			r.Add(r, n().Mul(big.NewInt(3), x[1]))
 		case "IsZeroSel":
 			if x[0].Sign() == 0 {
 				r = n().Set(x[1])
 			} else {
 				r = n().Add(x[1], one)
 			}
+		case "SqrtSq":
+			if x[0].Sign() != 0 && n().ModSqrt(x[0], q) == nil {
+				return 1, nil, nil
+			}
+			r = n().Set(x[0])
+		case "Exp":
+			if raw[1].Cmp(q) >= 0 || (x[0].Sign() == 0 && raw[1].Sign() == 0) {
+				return 2, nil, nil
+			}
+			r = n().Exp(x[0], raw[1], q)
+		case "AssertEq":
+			if x[0].Cmp(x[1]) != 0 {
+				return 1, nil, nil
+			}
+			r = n().Set(x[0])
+		case "AssertDiff":
+			if x[0].Cmp(x[1]) == 0 {
+				return 1, nil, nil
+			}
+			r = n().Set(x[0])
+		case "LeqStrict":
+			if x[0].Cmp(x[1]) > 0 {
+				return 1, nil, nil
+			}
+			r = n().Set(x[0])
+		case "ModMulB", "ModAddB", "ModExpB":
+			if b.Sign() == 0 {
+				return 2, nil, nil
+			}
+			switch ins.Op {
+			case "ModMulB":
+				e = n().Mul(raw[0], raw[1])
+			case "ModAddB":
+				e = n().Add(raw[0], raw[1])
+			default:
+				if raw[0].Sign() == 0 && raw[1].Sign() == 0 {
+					return 2, nil, nil
+				}
+				e = n().Exp(raw[0], raw[1], b)
+			}
+			e.Mod(e, b)
+			r = n().Set(x[0])
 		default:
 			panic("unknown op " + ins.Op)
 		}
-		temps = append(temps, r.Mod(r, q))
+		r.Mod(r, q)
+		if e == nil {
+			e = r
+		}
+		temps = append(temps, r)
+		exp = append(exp, e)
+		nat = append(nat, nv)
 	}
-	return true, temps
+	return 0, exp, nat
 }
+
+func emuIsMod(op string) bool { return op == "ModMulB" || op == "ModAddB" || op == "ModExpB" }
 
 type EmuRes struct {
 	ID       int      `json:"id"`
 	Params   string   `json:"params"`
 	Cases    int      `json:"cases"`
+	Tampered int      `json:"tampered"`
 	Problems []string `json:"problems"`
 }
 
@@ -259,14 +369,17 @@ func emuProgString(p []EmuInstr) string {
 	return sb.String()
 }
 
-func usesHint(p []EmuInstr) bool {
-	for _, ins := range p {
-		switch ins.Op {
-		case "Mul", "Sqr", "Div", "Inverse", "Reduce", "AddChain", "IsZeroSel":
-			return true
-		}
+// limbsOf assigns an element by its limbs, so that a value in [q, 2^width) can be given to a witness.
+func limbsOf[T emulated.FieldParams](v *big.Int) emulated.Element[T] {
+	var t T
+	mask := new(big.Int).Sub(new(big.Int).Lsh(big.NewInt(1), t.BitsPerLimb()), big.NewInt(1))
+	x := new(big.Int).Set(v)
+	limbs := make([]frontend.Variable, t.NbLimbs())
+	for i := range limbs {
+		limbs[i] = new(big.Int).And(x, mask)
+		x.Rsh(x, t.BitsPerLimb())
 	}
-	return false
+	return emulated.Element[T]{Limbs: limbs}
 }
 
 // emuRun replays one program on emulated.Field[T] over the native field `native`.
@@ -279,13 +392,17 @@ func emuRun[T emulated.FieldParams](b *EmuBeh, pname string, native ecc.ID, full
 	}
 	var t T
 	q := t.Modulus()
+	toy := q.Cmp(big.NewInt(13)) == 0
 	one := big.NewInt(1)
 	limbMax := new(big.Int).Sub(new(big.Int).Lsh(one, t.BitsPerLimb()), one)
-	type vv struct{ a, b *big.Int }
+	type vv struct {
+		a, b *big.Int
+		sel  int // -1: all four selector values
+	}
 	var vals []vv
-	if q.Cmp(big.NewInt(13)) == 0 {
+	if toy {
 		for _, pr := range b.Probes {
-			vals = append(vals, vv{big.NewInt(int64(pr.A)), big.NewInt(int64(pr.B))})
+			vals = append(vals, vv{big.NewInt(int64(pr.A)), big.NewInt(int64(pr.B)), pr.Sel})
 		}
 	} else {
 		qm1 := new(big.Int).Sub(q, one)
@@ -293,17 +410,37 @@ func emuRun[T emulated.FieldParams](b *EmuBeh, pname string, native ecc.ID, full
 		allones := new(big.Int).Mod(new(big.Int).Sub(new(big.Int).Lsh(one, t.BitsPerLimb()*(t.NbLimbs()-1)), one), q) // lower limbs all ones
 		corner := []*big.Int{new(big.Int), big.NewInt(1), big.NewInt(2), qm1, half, limbMax, allones, new(big.Int).Sub(qm1, one)}
 		for i, x := range corner {
-			vals = append(vals, vv{x, corner[(i*3+1)%len(corner)]}, vv{x, x})
+			vals = append(vals, vv{x, corner[(i*3+1)%len(corner)], -1}, vv{x, x, -1})
+		}
+		// non-canonical witness values: q itself and the largest value the limbs can hold
+		top := new(big.Int).Sub(new(big.Int).Lsh(one, uint(q.BitLen())), one)
+		vals = append(vals, vv{q, big.NewInt(1), 1}, vv{q, qm1, 2}, vv{top, big.NewInt(2), 0}, vv{top, half, 3})
+	}
+	hasMod, usesSel := false, false
+	for _, ins := range b.Prog {
+		if emuIsMod(ins.Op) {
+			hasMod = true
+		}
+		if ins.Op == "Select" || ins.Op == "Mux3" || ins.Op == "Lookup2" {
+			usesSel = true
 		}
 	}
-	mkAssign := func(a, bv *big.Int, sel int, exp []*big.Int) *EmuCircuit[T] {
-		as := &EmuCircuit[T]{A: emulated.ValueOf[T](a), B: emulated.ValueOf[T](bv), Sel: sel, E: make([]emulated.Element[T], len(exp))}
-		for k := range exp {
-			as.E[k] = emulated.ValueOf[T](exp[k])
+	// a padding for the variable-modulus subtraction may be any multiple of the modulus: perturbing its top limb by one is
+	// legitimate when the modulus divides a power of two
+	pow2 := func(m *big.Int) bool { return m.Sign() > 0 && new(big.Int).And(m, new(big.Int).Sub(m, one)).Sign() == 0 }
+	mkAssign := func(a, bv *big.Int, sel int, exp, nat []*big.Int) *EmuCircuit[T] {
+		as := &EmuCircuit[T]{A: limbsOf[T](a), B: limbsOf[T](bv), Sel: sel, E: make([]emulated.Element[T], len(b.Prog)), N: make([]frontend.Variable, len(b.Prog))}
+		for k := range as.E {
+			as.E[k] = emulated.ValueOf[T](0)
+			as.N[k] = 0
+			if k < len(exp) {
+				as.E[k] = emulated.ValueOf[T](exp[k])
+				as.N[k] = nat[k]
+			}
 		}
 		return as
 	}
-	circuit := &EmuCircuit[T]{Prog: b.Prog, E: make([]emulated.Element[T], len(b.Prog))}
+	circuit := &EmuCircuit[T]{Prog: b.Prog, E: make([]emulated.Element[T], len(b.Prog)), N: make([]frontend.Variable, len(b.Prog))}
 	// compile once for the prover path
 	var ccs constraint.ConstraintSystem
 	var pk groth16.ProvingKey
@@ -340,7 +477,7 @@ func emuRun[T emulated.FieldParams](b *EmuBeh, pname string, native ecc.ID, full
 			sat := false
 			for _, v := range vals {
 				for sel := 0; sel < 4; sel++ {
-					if ok, _ := emuOracle(b.Prog, v.a, v.b, sel, q); ok {
+					if st, _, _ := emuOracle(b.Prog, v.a, v.b, sel, q); st != 1 {
 						sat = true
 					}
 				}
@@ -382,21 +519,18 @@ func emuRun[T emulated.FieldParams](b *EmuBeh, pname string, native ecc.ID, full
 		return perr
 	}
 	for vi, v := range vals {
-		for sel := 0; sel < 4; sel++ {
-			if q.Cmp(big.NewInt(13)) == 0 {
-				sel = b.Probes[vi].Sel // the probe fixes the selector
-			}
-			ok, exp := emuOracle(b.Prog, v.a, v.b, sel, q)
-			if !ok && exp == nil {
-				if q.Cmp(big.NewInt(13)) == 0 {
-					break
-				}
-				continue // unspecified case
-			}
-			if q.Cmp(big.NewInt(13)) == 0 {
+		sels := []int{0, 1, 2, 3}
+		if v.sel >= 0 {
+			sels = []int{v.sel}
+		} else if !usesSel {
+			sels = []int{vi % 4}
+		}
+		for _, sel := range sels {
+			st, exp, nat := emuOracle(b.Prog, v.a, v.b, sel, q)
+			if toy {
 				pr := b.Probes[vi]
-				same := pr.Ok == ok
-				if same && ok {
+				same := pr.Ok == (st == 0) && pr.Un == (st == 2)
+				if same && st == 0 {
 					for k := range exp {
 						if int(exp[k].Int64()) != pr.Temps[k] {
 							same = false
@@ -408,14 +542,11 @@ func emuRun[T emulated.FieldParams](b *EmuBeh, pname string, native ecc.ID, full
 					return res
 				}
 			}
-			if !ok {
-				// division by zero: no expectation to assert against; the circuit must be unsatisfiable
-				exp = make([]*big.Int, len(b.Prog))
-				for k := range exp {
-					exp[k] = new(big.Int)
-				}
+			if st == 2 {
+				continue // unspecified by the documentation
 			}
-			as := mkAssign(v.a, v.b, sel, exp)
+			ok := st == 0
+			as := mkAssign(v.a, v.b, sel, exp, nat)
 			res.Cases++
 			var terr error
 			pan, msg := common.Safely(func() { terr = test.IsSolved(circuit, as, native.ScalarField()) })
@@ -425,9 +556,9 @@ func emuRun[T emulated.FieldParams](b *EmuBeh, pname string, native ecc.ID, full
 			} else if ok && terr != nil {
 				bad("result differs from integer arithmetic modulo q (test engine): %s: %v", desc, firstLine(terr.Error()))
 			} else if !ok && terr == nil {
-				bad("division by zero accepted (test engine): %s", desc)
+				bad("unsatisfiable case accepted (test engine): %s", desc)
 			}
-			if full && (vi%5 == 0 || q.BitLen() < 20) {
+			if full && (vi%5 == 0 || toy || v.sel >= 0) {
 				perr := prove(as)
 				if perr != nil && strings.HasPrefix(perr.Error(), "INFRA") {
 					bad("%v", perr)
@@ -436,22 +567,50 @@ func emuRun[T emulated.FieldParams](b *EmuBeh, pname string, native ecc.ID, full
 				if ok && perr != nil {
 					bad("result differs from integer arithmetic modulo q (compiled circuit, real prover): %s: %v", desc, firstLine(perr.Error()))
 				} else if !ok && perr == nil {
-					bad("division by zero accepted (compiled circuit): %s", desc)
+					bad("unsatisfiable case accepted (compiled circuit): %s", desc)
 				}
-				// a wrong expected value must be rejected
-				if ok && len(exp) > 0 {
+				// a wrong expected value must be rejected (modulo 1 everything is congruent)
+				lastMod := emuIsMod(b.Prog[len(b.Prog)-1].Op)
+				if ok && !(lastMod && v.b.Cmp(one) <= 0) {
 					wrong := append([]*big.Int(nil), exp...)
-					wrong[len(wrong)-1] = new(big.Int).Mod(new(big.Int).Add(exp[len(exp)-1], one), q)
-					if e := prove(mkAssign(v.a, v.b, sel, wrong)); e == nil {
+					m := q
+					if lastMod {
+						m = v.b
+					}
+					wrong[len(wrong)-1] = new(big.Int).Mod(new(big.Int).Add(exp[len(exp)-1], one), m)
+					if e := prove(mkAssign(v.a, v.b, sel, wrong, nat)); e == nil {
 						bad("a result off by one is accepted by the compiled circuit: %s", desc)
 					}
 				}
-				if tamper && ok && usesHint(b.Prog) && vi%5 == 0 && sel == 0 {
-					for hi, h := range emulated.GetHints() {
+				doTamper := tamper && ok && !(hasMod && pow2(v.b))
+				if toy {
+					doTamper = doTamper && vi%12 == 7
+				} else {
+					doTamper = doTamper && vi == 5 && sel == sels[0]
+				}
+				if doTamper {
+					// which hints does this run call?
+					hints := emulated.GetHints()
+					called := make([]bool, len(hints))
+					var opts []solver.Option
+					for hi, h := range hints {
+						hi, h := hi, h
+						opts = append(opts, solver.OverrideHint(solver.GetHintID(h), func(m *big.Int, in, out []*big.Int) error {
+							called[hi] = len(out) > 0
+							return h(m, in, out)
+						}))
+					}
+					if e := prove(as, opts...); e != nil {
+						bad("INFRA counting hint calls changed the outcome: %s: %v", desc, e)
+						return res
+					}
+					for hi, h := range hints {
+						if !called[hi] {
+							continue
+						}
 						h := h
 						for _, pos := range []int{0, -1} {
 							pos := pos
-							hit := false
 							opt := solver.OverrideHint(solver.GetHintID(h), func(m *big.Int, in, out []*big.Int) error {
 								if err := h(m, in, out); err != nil {
 									return err
@@ -459,7 +618,6 @@ func emuRun[T emulated.FieldParams](b *EmuBeh, pname string, native ecc.ID, full
 								if len(out) == 0 {
 									return nil
 								}
-								hit = true
 								j := pos
 								if j < 0 {
 									j = len(out) - 1
@@ -467,16 +625,13 @@ func emuRun[T emulated.FieldParams](b *EmuBeh, pname string, native ecc.ID, full
 								out[j].Add(out[j], one)
 								return nil
 							})
-							e := prove(as, opt)
-							if hit && e == nil {
+							res.Tampered++
+							if e := prove(as, opt); e == nil {
 								bad("hint %d (%s) output %d perturbed by one and the circuit is still satisfied: %s", hi, solver.GetHintName(h), pos, desc)
 							}
 						}
 					}
 				}
-			}
-			if q.Cmp(big.NewInt(13)) == 0 {
-				break
 			}
 		}
 	}
